@@ -187,7 +187,8 @@ func (m *ModuleInstance) buildElementInstances(elements []ElementSegment) {
 			for j, idx := range inits {
 				if index, ok := unwrapElementInitGlobalReference(idx); ok {
 					global := m.Globals[index]
-					inst[j] = Reference(global.Val)
+					v, _ := global.Value()
+					inst[j] = Reference(v)
 				} else {
 					if idx != ElementInitNullReference {
 						inst[j] = m.Engine.FunctionInstanceReference(idx)
@@ -211,7 +212,8 @@ func (m *ModuleInstance) applyElements(elems []ElementSegment) {
 			// Ignore error as it's already validated.
 			globalIdx, _, _ := leb128.LoadUint32(elem.OffsetExpr.Data)
 			global := m.Globals[globalIdx]
-			offset = uint32(global.Val)
+			v, _ := global.Value()
+			offset = uint32(v)
 		} else {
 			// Ignore error as it's already validated.
 			o, _, _ := leb128.LoadInt32(elem.OffsetExpr.Data)
@@ -244,7 +246,8 @@ func (m *ModuleInstance) applyElements(elems []ElementSegment) {
 				var ref Reference
 				if index, ok := unwrapElementInitGlobalReference(init); ok {
 					global := m.Globals[index]
-					ref = Reference(global.Val)
+					v, _ := global.Value()
+					ref = Reference(v)
 				} else {
 					ref = m.Engine.FunctionInstanceReference(index)
 				}
@@ -579,7 +582,9 @@ func executeConstExpressionI32(importedGlobals []*GlobalInstance, expr *Constant
 	case OpcodeGlobalGet:
 		id, _, _ := leb128.LoadUint32(expr.Data)
 		g := importedGlobals[id]
-		ret = int32(g.Val)
+		// Note: not g.Val, which is only the initial value when the global is owned by a compiled module.
+		v, _ := g.Value()
+		ret = int32(v)
 	}
 	return
 }
@@ -606,19 +611,15 @@ func (g *GlobalInstance) initialize(importedGlobals []*GlobalInstance, expr *Con
 	case OpcodeGlobalGet:
 		id, _, _ := leb128.LoadUint32(expr.Data)
 		importedG := importedGlobals[id]
+		// Note: not importedG.Val, which is only the initial value when the global is owned by a compiled module.
+		lo, hi := importedG.Value()
 		switch importedG.Type.ValType {
-		case ValueTypeI32:
-			g.Val = uint64(uint32(importedG.Val))
-		case ValueTypeI64:
-			g.Val = importedG.Val
-		case ValueTypeF32:
-			g.Val = importedG.Val
-		case ValueTypeF64:
-			g.Val = importedG.Val
+		case ValueTypeI32, ValueTypeF32:
+			g.Val = uint64(uint32(lo))
 		case ValueTypeV128:
-			g.Val, g.ValHi = importedG.Val, importedG.ValHi
-		case ValueTypeFuncref, ValueTypeExternref:
-			g.Val = importedG.Val
+			g.Val, g.ValHi = lo, hi
+		default:
+			g.Val = lo
 		}
 	case OpcodeRefNull:
 		switch expr.Data[0] {
@@ -635,13 +636,14 @@ func (g *GlobalInstance) initialize(importedGlobals []*GlobalInstance, expr *Con
 
 // String implements api.Global.
 func (g *GlobalInstance) String() string {
+	val, _ := g.Value()
 	switch g.Type.ValType {
 	case ValueTypeI32, ValueTypeI64:
-		return fmt.Sprintf("global(%d)", g.Val)
+		return fmt.Sprintf("global(%d)", val)
 	case ValueTypeF32:
-		return fmt.Sprintf("global(%f)", api.DecodeF32(g.Val))
+		return fmt.Sprintf("global(%f)", api.DecodeF32(val))
 	case ValueTypeF64:
-		return fmt.Sprintf("global(%f)", api.DecodeF64(g.Val))
+		return fmt.Sprintf("global(%f)", api.DecodeF64(val))
 	default:
 		panic(fmt.Errorf("BUG: unknown value type %X", g.Type.ValType))
 	}
